@@ -377,6 +377,8 @@ struct Sched {
     hash: u64,
     aborted: Option<Abort>,
     consecutive: u64,
+    /// extra steps granted for timed waits that expired (see `wake_expired`)
+    wait_credit: u64,
     // stop phase
     stop_active: bool,
     fair_at: u64,
@@ -787,13 +789,26 @@ impl Sched {
     /// timed waits whose deadline has passed become runnable (timed out)
     fn wake_expired(&mut self) {
         let now = self.clock_ns;
+        let mut expired = 0u64;
         for t in self.tasks.iter_mut() {
             if let Some(d) = Sched::deadline_of(t) {
                 if d <= now {
                     t.state = TState::Runnable;
                     t.timed_out = true;
+                    expired += 1;
                 }
             }
+        }
+        // A timed wait that runs out is waiting, not work: every expiry extends the step
+        // budgets by what one iteration of a polling loop costs. Otherwise a design that polls
+        // with timeouts (a collector that waits 50 ms at a time for a decoder that takes an
+        // hour of simulated time) would hit the step bound without being stuck — a false alarm
+        // on a rewrite with a polling collector. The extension is capped, so a loop that polls
+        // for ever for something that never happens still ends in a step-bound report.
+        let credit = (expired * 12).min(self.cfg.max_steps.saturating_mul(60).saturating_sub(self.wait_credit));
+        self.wait_credit += credit;
+        if self.stop_active {
+            self.stop_deadline += credit;
         }
     }
 
@@ -865,7 +880,7 @@ fn reschedule<'a>(sh: &'a Shared, mut g: MutexGuard<'a, Sched>, me: TaskId) -> M
     g.step += 1;
     g.tasks[me].steps += 1;
     g.advance_clock();
-    if g.step > g.cfg.max_steps {
+    if g.step > g.cfg.max_steps + g.wait_credit {
         let msg = format!("global step bound {} exceeded; {}", g.cfg.max_steps, g.describe_blocked());
         g.aborted = Some(Abort::StepBound(msg));
         g.wake_all();
@@ -1684,6 +1699,7 @@ pub fn run<T>(cfg: Config, root: impl FnOnce() -> T) -> Outcome<T> {
         hash: 0xcbf29ce484222325,
         aborted: None,
         consecutive: 0,
+        wait_credit: 0,
         stop_active: false,
         fair_at: 0,
         stop_deadline: 0,
